@@ -19,6 +19,7 @@ pub enum GridKind {
     VecGrowth,
     BoxChains,
     CrossArena,
+    Retry,
 }
 
 #[derive(Clone, Copy, Debug, PartialEq, Eq, Hash)]
@@ -41,6 +42,8 @@ pub enum Case {
     VGrow { kind: u8, esz: u8, n: u32 },
     /// C20/C13: two vectors (of two arenas, or of one) meeting in `append`; see crossarena.rs
     Cross { esz: u8, dest: u8, donor: u8, after: u8, same: bool },
+    /// C18: chunk sizes under size-dependent refusal; see retry.rs
+    Retry { m: u8, k: u8, req: u8, start: u8 },
 }
 
 /// Inputs checked inside grid cases that loop over many inputs (decoder grids).
@@ -320,6 +323,7 @@ impl Model for GridModel {
             Case::Dec { which, a, b, c } => crate::decoders::run_dec(envp, which, a, b, c, self.thorough, &mut v),
             Case::VGrow { kind, esz, n } => crate::decoders::run_vgrow(envp, kind, esz, n, &mut v),
             Case::Cross { esz, dest, donor, after, same } => crate::crossarena::run_case(envp, esz, dest, donor, after, same, &mut v),
+            Case::Retry { m, k, req, start } => crate::retry::run_case(envp, m, k, req, start, &mut v),
             Case::Bx { fam, build, steps, term, fault } => crate::boxmodel::run_case(envp, fam, build, steps, term, fault, &mut v),
         };
         // leftovers: every case must have released what it acquired
@@ -441,6 +445,7 @@ impl GridModel {
             GridKind::VecGrowth => c = crate::decoders::vgrow_cases(t),
             GridKind::BoxChains => c = crate::boxmodel::cases(t),
             GridKind::CrossArena => c = crate::crossarena::cases(t),
+            GridKind::Retry => c = crate::retry::cases(t),
         }
         c
     }
